@@ -79,9 +79,9 @@ func init() {
 	}
 	Props["C12"] = &PropSpec{
 		Level: "other",
-		Rules: []string{"R31", "R32", "R33"},
+		Rules: []string{"R31", "R32", "R33", "R47"},
 		Explanation: "Row-completeness clauses for all (count, positive page size): typestate of the page buffer over all paths — every appended feature is flushed exactly once before WriteFeatures returns (R31); every flushed feature is inserted exactly once through a statement prepared on the page's transaction, which is committed on every normal path, with the extent accumulated over every feature, only through the two known idioms, and merged after commit (R32); attribute/geometry column order agrees between selectSQL, insertSQL, createSQL, ReadFeatures and writeFeatures (R33).",
-		Decided: []string{"one flush per buffered feature incl. the final partial page (R31)", "one INSERT per flushed feature in a committed transaction; extent over all rows (R32)", "column order agreement (R33)"},
+		Decided: []string{"one flush per buffered feature incl. the final partial page (R31)", "one INSERT per flushed feature in a committed transaction; extent over all rows (R32)", "column order agreement (R33)", "schema (name, columns, geometry column/type, srs) copied field by field for every table (R47)"},
 		NotDecided: []string{"what SQLite/SpatiaLite do with the statements (rtree triggers, gpkg_contents arithmetic, schema copy)", "dropped Commit error (only matters under I/O faults, outside the quantifier)"},
 	}
 	Props["C13"] = &PropSpec{
